@@ -93,8 +93,27 @@ def chain_list(draw, Lmax=8, nmax=12, for_mpo=False):
     return {'L': L, 'chains': chains, 'charged': charged, 'cstyle': cstyle}
 
 
+def _coeff_form(c, k):
+    """Legal argument forms of one and the same coefficient value: Python float / int, NumPy scalar, complex with zero imaginary part."""
+    if k % 4 == 1 and float(c).is_integer() and abs(c) < 2**31:
+        return int(c)
+    if k % 4 == 2:
+        return np.float64(c)
+    if k % 4 == 3:
+        return complex(c, 0.0)
+    return c
+
+
 def build_chains(desc):
-    return [ptn.OpChain(c['oids'], c['qnums'], c['coeff'], c['istart']) for c in desc['chains']]
+    out = []
+    for k, c in enumerate(desc['chains']):
+        oids = c['oids']
+        if k % 3 == 1:
+            oids = [np.int64(o) for o in oids]      # operator ids as NumPy integers
+        elif k % 3 == 2:
+            oids = tuple(oids)
+        out.append(ptn.OpChain(oids, tuple(c['qnums']) if k % 2 else c['qnums'], _coeff_form(c['coeff'], k), c['istart']))
+    return out
 
 
 def chain_tuples(desc):
